@@ -292,9 +292,9 @@ Proof.
         pose proof (proj1 Fw) as (_ & Bo & Cc & _).
         destruct (m_is_file_false_cases2 _ _ _ E1 Hif) as [Z|[Z|[Z1 Z2]]].
         - rewrite Cc in Z. split; [left; exact Z | right; left; exact Z].
-        - rewrite Fnew. split; [right; apply get_none_of_pending; exact Z|]. left.
-          pose proof Hr1 as (_ & _ & _ & _ & _ & _ & _ & _ & _ & I7). apply I7. rewrite Fnew. exact Z.
-        - rewrite Fnew. split; [right; apply get_none_of_free; exact Z1|]. right; right.
+        - rewrite <- Fnew in Z. split; [right; apply get_none_of_pending; exact Z|]. left.
+          pose proof Hr1 as (_ & _ & _ & _ & _ & _ & _ & _ & _ & I7). apply I7. exact Z.
+        - rewrite <- Fnew in Z1. split; [right; apply get_none_of_free; exact Z1|]. right; right.
           rewrite Bo in Z2. split; [exact Z2|]. exists p0. split; assumption. }
       assert (K : forall w2 b, back_up_and_remove (n :: d) w1 = (w2, b) ->
                 FI w2 /\ built_le w1 w2 /\ EI w2 /\ stable w1 w2).
@@ -375,6 +375,346 @@ Proof.
     + intros t Y. apply Ht'. cbn [flat_map]. apply in_or_app. left. exact Y.
     + apply Hs. intros t Y. apply Ht'. cbn [flat_map]. apply in_or_app. left. exact Y.
     + apply IHl. intros t Y. apply Ht'. cbn [flat_map]. apply in_or_app. right. exact Y.
+Qed.
+
+(* ================================================================== *)
+(* 5. Claiming a target                                                *)
+(* ================================================================== *)
+
+(* a world with the same tree, bookkeeping and backups, and a new cache with the same
+   entries, claims and recorded directories *)
+Lemma EInv_ext : forall w w', EI w ->
+  (forall q, files_get (c_files (w_new w')) q = files_get (c_files (w_new w)) q) ->
+  (forall q, In q (c_built (w_new w')) <-> In q (c_built (w_new w))) ->
+  c_dirs (w_new w') = c_dirs (w_new w) -> w_backups w' = w_backups w -> w_fs w' = w_fs w -> w_bd w' = w_bd w ->
+  EI w' /\ stable w w'.
+Proof.
+  intros w w' (Z1 & HZ & XB & XS & X6) Ef Eb Ed Ek Es Ebd.
+  split; [|intros q _; apply Ef].
+  unfold EInv, XBc, XSc, X6c, cache_get_file. rewrite Ed, Ek, Es, Ebd.
+  split; [exact Z1|]. split; [exact HZ|]. split; [|split].
+  - intros p o Ho Hb. rewrite Ef in Ho. apply Eb in Hb. exact (XB p o Ho Hb).
+  - intros p o Ho Hb Hc. rewrite Ef in Ho. apply (XS p o Ho); [|exact Hc]. intro Y. apply Hb. apply Eb. exact Y.
+  - intros p f Hp. destruct (X6 p f Hp) as [Y|Y]; [left; apply Eb; exact Y | right; exact Y].
+Qed.
+
+(* the claim itself: a new entry "in progress" *)
+Lemma claim_E : forall w p, EI w -> cache_has_file (w_new w) p = false ->
+  let c1 := cache_with (w_new w) (files_set (c_files (w_new w)) p None) (c_subs (w_new w))
+                       (c_dirs (w_new w)) (c_built (w_new w) ++ [p]) in
+  EI (set_new c1 w) /\ stable w (set_new c1 w).
+Proof.
+  intros w p (Z1 & HZ & XB & XS & X6) Hfree c1.
+  assert (Hget : forall q o, cache_get_file c1 q = Some o -> q <> p /\ cache_get_file (w_new w) q = Some o).
+  { intros q o Ho. unfold cache_get_file in *. subst c1. cbn [c_files cache_with] in Ho. rewrite files_get_set in Ho.
+    destruct (path_eqb p q) eqn:E; [discriminate Ho|]. apply path_eqb_neq in E. split; [congruence | exact Ho]. }
+  split.
+  - unfold EInv, XBc, XSc, X6c. cbn [w_new w_bd w_fs w_backups set_new].
+    split; [exact Z1|]. split; [exact HZ|]. split; [|split].
+    + intros q o Ho Hb. destruct (Hget q o Ho) as [Nq Ho']. apply (XB q o Ho').
+      subst c1. cbn [c_built cache_with] in Hb. apply in_app_or in Hb. destruct Hb as [Hb|[Hb|[]]]; [exact Hb | congruence].
+    + intros q o Ho Hb Hc. destruct (Hget q o Ho) as [Nq Ho']. apply (XS q o Ho'); [|exact Hc].
+      intro Y. apply Hb. subst c1. cbn [c_built cache_with]. apply in_or_app. left. exact Y.
+    + intros q f Hq. destruct (X6 q f Hq) as [Y|Y]; [left | right; exact Y].
+      subst c1. cbn [c_built cache_with]. apply in_or_app. left. exact Y.
+  - intros q Hq. cbn [w_new set_new]. subst c1. cbn [c_files cache_with]. rewrite files_get_set.
+    destruct (path_eqb p q) eqn:E; [|reflexivity]. apply path_eqb_eq in E. subst q. congruence.
+Qed.
+
+Lemma bf_claim_G : forall t p, P p -> p <> cf -> pres (GP t) (bf_claim p).
+Proof.
+  intros t p HP Hcf. apply G_lift; [apply bf_claim_F; assumption|].
+  intros w w' r H [Hr HD] Ew Tw Gw. unfold bf_claim in H.
+  apply bind_inv in H. destruct H as [(w1 & u & E1 & H) | (e & E1 & _)].
+  2:{ apply new_start_building_file_inv in E1. destruct E1 as [(_ & ->) | (Y & _)]; [|discriminate Y].
+      split; [exact Ew | apply stable_refl]. }
+  apply new_start_building_file_inv in E1. destruct E1 as [(Y & _) | (_ & Hfree & ->)]; [discriminate Y|].
+  set (c1 := cache_with (w_new w) (files_set (c_files (w_new w)) p None) (c_subs (w_new w))
+                        (c_dirs (w_new w)) (c_built (w_new w) ++ [p])) in *.
+  destruct (claim_E w p Ew Hfree) as [Ew1 S1]. fold c1 in Ew1, S1.
+  pose proof Hr as (Hf & _).
+  assert (Hnb : ~ In p (c_built (w_new w))).
+  { intro Y. destruct Hr as (_ & _ & _ & _ & _ & _ & _ & I5 & _). destruct (I5 p Y) as (Z & _). congruence. }
+  assert (Hncf : forall q, In q (c_built (w_new (set_new c1 w))) -> q <> cf).
+  { intros q Hq. cbn [w_new set_new] in Hq. subst c1. cbn [c_built cache_with] in Hq.
+    apply in_app_or in Hq. destruct Hq as [Hq|[<-|[]]]; [exact (built_not_cf _ Hr q Hq) | exact Hcf]. }
+  assert (Hclear : forall w2 x, bind get (fun w => if isfile (w_fs w) p then bind (back_up_and_remove p) (fun b => ret tt) else ret tt)
+                                  (set_new c1 w) = (w2, inl x) -> EI w2 /\ stable w w2).
+  { intros w2 x E. unfold bind at 1, get in E. cbn [w_fs set_new] in E.
+    destruct (isfile (w_fs w) p) eqn:Ef; [|inversion E; subst; split; assumption].
+    apply bind_inv in E. destruct E as [(w3 & b & E2 & E) | (e & _ & Y)]; [|discriminate Y].
+    inversion E; subst w3; clear E.
+    destruct (backup_E _ _ _ _ E2 Hf (isfile_not_dir _ _ Ef) Ew1 Hncf) as [Ew2 S2].
+    { intros f _. split; [right|left].
+      - apply get_none_of_pending. unfold pending. cbn [w_new set_new]. subst c1. cbn [c_files cache_with].
+        apply files_get_set_same.
+      - cbn [w_new set_new]. subst c1. cbn [c_built cache_with]. apply in_or_app. right. left. reflexivity. }
+    split; [exact Ew2 | eapply stable_trans; eauto]. }
+  apply bind_inv in H. destruct H as [(w2 & u2 & E2 & H) | (e & E2 & _)].
+  - inversion H; subst w2; clear H.
+    apply catch_inv in E2. destruct E2 as [(a & E2 & _) | (w3 & e & E2 & E3)]; [exact (Hclear _ _ E2)|].
+    apply bind_inv in E3. destruct E3 as [(w4 & u4 & _ & E3) | (e' & _ & Y)]; [inversion E3 | discriminate Y].
+  - apply catch_inv in E2. destruct E2 as [(a & _ & Y) | (w3 & e0 & E2 & E3)]; [discriminate Y|].
+    apply bind_inv in E3. destruct E3 as [(w4 & u4 & E4 & E3) | (e' & E4 & _)]; [|inversion E4].
+    inversion E3; subst w4; clear E3.
+    unfold new_abort_building_file, modify in E4. inversion E4; subst w'; clear E4.
+    (* the backup failed: the tree and the backups are as before, the claim is released *)
+    unfold bind at 1, get in E2. cbn [w_fs set_new] in E2.
+    destruct (isfile (w_fs w) p) eqn:Ef; [|inversion E2].
+    apply bind_inv in E2. destruct E2 as [(w5 & b & _ & E2) | (e' & E2 & _)]; [inversion E2|].
+    assert (D1 : isdir (w_fs (set_new c1 w)) p = false) by (apply isfile_not_dir; exact Ef).
+    pose proof (back_up_dkeep _ _ _ _ E2 D1) as (Kb & _ & _).
+    destruct (back_up_spec _ _ _ _ E2 Hf D1) as (_ & _ & _ & F4 & [(f & Y & _) | (G1 & G2 & _)]); [discriminate Y|].
+    cbn [w_fs w_backups w_new w_bd set_new] in *.
+    apply EInv_ext; auto; cbn [w_new w_fs w_backups w_bd set_new c_files c_built c_dirs cache_with]; rewrite ?F4.
+    + intro q. subst c1. cbn [c_files cache_with].
+      destruct (files_get (c_files (w_new w)) p) eqn:Hg; [unfold cache_has_file in Hfree; rewrite Hg in Hfree; discriminate Hfree|].
+      apply files_get_del_set_free. exact Hg.
+    + intro q. subst c1. cbn [c_built cache_with]. rewrite del_path_app_self by exact Hnb. tauto.
+    + subst c1. reflexivity.
+Qed.
+
+Lemma subs_targets_incl : forall co q, In q (flat_map op_targets (op_subs co)) -> In q (op_targets co).
+Proof. intros [q0 r e | p c f a k subs r cr ra sf | f a k subs r ra sf] q H; cbn in *; auto. Qed.
+
+Lemma bf_reuse_G : forall t p c fname sargs skw cached, P p ->
+  match cached with Some co => forall x, In x (op_targets co) -> TG x | None => True end ->
+  pres (GP t) (bf_reuse p c fname sargs skw cached).
+Proof.
+  intros t p c fname sargs skw cached HP Hc. unfold bf_reuse. cbv zeta. destruct cached as [co|]; [|apply pres_ret].
+  pose proof (apply_cached_subs_of_G co Hc t).
+  assert (Hreg : forall cmp, pres (GP t) (new_use_cached_operation
+                   (OBuildFile p c fname sargs skw (op_subs co) (op_ret co) cmp false false))).
+  { intro cmp. apply new_use_cached_operation_G. intros q Hq. cbn [op_targets] in Hq.
+    destruct Hq as [<-|Hq]; [left; exact HP | apply Hc; apply subs_targets_incl; exact Hq]. }
+  pres_auto.
+Qed.
+
+Lemma bf_setup_G : forall t p c fname sargs skw, P p -> pres (GP t) (bf_setup p c fname sargs skw).
+Proof.
+  intros t p c fname sargs skw HP. unfold bf_setup.
+  apply pres_bind; [auto with pres|]. intros _.
+  apply (pres_bind_valG fs0 old cf P X t _ _ _ _ (fun icf => icf = path_eqb p cf)); [auto with pres | |].
+  { intros w w1 a ((_ & _ & C & _) & _) E. unfold is_cache_file in E.
+    assert (Ea : a = path_eqb p (w_cachefile w)) by congruence. rewrite <- C. exact Ea. }
+  intros icf ->. destruct (path_eqb p cf) eqn:Ecf; [apply pres_bind_raise|]. apply path_eqb_neq in Ecf.
+  apply pres_bind; [apply pres_ret|]. intros _.
+  eapply pres_ext; [intro; apply prep_assoc|].
+  apply pres_bind; [apply pfc_room_G; exact HP|]. intros _.
+  eapply pres_ext; [intro; apply make_lock_assoc|].
+  apply pres_bind; [apply make_lock_G; left; exact HP|]. intro locked.
+  apply pres_catch; [|intro e; pres_auto].
+  apply (pres_bind_valG fs0 old cf P X t _ _ _ _
+           (fun cached => match cached with Some co => forall x, In x (op_targets co) -> TG x | None => True end));
+    [auto with pres | |].
+  { intros w w1 a ((_ & B & _) & _) E. destruct a as [co|]; [|exact I].
+    apply lookup_never_raised in E. destruct E as (E & _). rewrite B in E.
+    intros x Hx. right. right. eapply cache_get_file_targets; eauto. }
+  intros cached Hc. apply pres_bind; [apply bf_reuse_G; assumption|]. intro reused.
+  destruct reused as [[o|eo]|]; [pres_auto | pres_auto | apply bf_claim_G; assumption].
+Qed.
+
+(* after a setup that ends with the claim, the target is in progress, and it was free before *)
+Lemma bf_claim_pending : forall p w w' x, bf_claim p w = (w', inl x) -> pending (w_new w') p.
+Proof.
+  intros p w w' x H. unfold bf_claim in H.
+  apply bind_inv in H. destruct H as [(wb & u & E1 & H) | (e & _ & Y)]; [|discriminate Y].
+  apply new_start_building_file_inv in E1. destruct E1 as [(Y & _) | (_ & _ & ->)]; [discriminate Y|].
+  apply bind_inv in H. destruct H as [(wc & u2 & E2 & H) | (e & _ & Y)]; [|discriminate Y].
+  inversion H; subst wc x; clear H.
+  apply catch_inv in E2. destruct E2 as [(a & E2 & _) | (w3 & e & _ & E3)].
+  - assert (G : pres newPO (bind get (fun w => if isfile (w_fs w) p then bind (back_up_and_remove p) (fun b => ret tt) else ret tt))).
+    { pose proof (back_up_and_remove_new p). pres_auto. }
+    destruct (G _ _ _ E2) as (N & _). unfold pending. rewrite N. cbn [w_new set_new c_files cache_with].
+    apply files_get_set_same.
+  - apply bind_inv in E3. destruct E3 as [(w4 & u4 & _ & E3) | (e' & _ & Y)]; [inversion E3 | discriminate Y].
+Qed.
+
+Lemma bf_setup_none_pending : forall p c fname sargs skw w w1,
+  bf_setup p c fname sargs skw w = (w1, inl None) -> pending (w_new w1) p.
+Proof.
+  intros p c fname sargs skw w w1 H. unfold bf_setup in H. minvc H.
+  all: try match goal with E : bf_claim _ _ = (_, inl _) |- _ => exact (bf_claim_pending _ _ _ _ E) end.
+Qed.
+
+Lemma bf_setup_fresh : forall p c fname sargs skw w w1 x,
+  bf_setup p c fname sargs skw w = (w1, inl x) -> cache_has_file (w_new w) p = false.
+Proof.
+  intros p c fname sargs skw w w1 x H. unfold bf_setup in H.
+  apply bind_inv in H. destruct H as [(w0 & u & E0 & _) | (e & _ & Y)]; [|discriminate Y].
+  unfold new_assert_no_file, bind, get in E0. destruct (cache_has_file (w_new w) p); [inversion E0 | reflexivity].
+Qed.
+
+(* ================================================================== *)
+(* 6. The end of a build_file call                                     *)
+(* ================================================================== *)
+
+Definition stable_ex (p : path) (w w' : world) : Prop :=
+  forall q, q <> p -> cache_has_file (w_new w) q = true ->
+            files_get (c_files (w_new w')) q = files_get (c_files (w_new w)) q.
+
+Lemma stable_then_ex : forall p a b c, stable a b -> stable_ex p b c -> stable_ex p a c.
+Proof.
+  intros p a b c H1 H2 q Nq Hq. rewrite (H2 q Nq (stable_has _ _ _ H1 Hq)). apply H1. exact Hq.
+Qed.
+
+Lemma stable_is_ex : forall p a b, stable a b -> stable_ex p a b.
+Proof. intros p a b H q _ Hq. apply H. exact Hq. Qed.
+
+Lemma stable_ex_has : forall p w w' q, stable_ex p w w' -> q <> p -> cache_has_file (w_new w) q = true ->
+  cache_has_file (w_new w') q = true.
+Proof. intros p w w' q H Nq Hq. unfold cache_has_file in *. rewrite (H q Nq Hq). exact Hq. Qed.
+
+Lemma stable_ex_trans : forall p a b c, stable_ex p a b -> stable_ex p b c -> stable_ex p a c.
+Proof.
+  intros p a b c H1 H2 q Nq Hq. rewrite (H2 q Nq (stable_ex_has _ _ _ _ H1 Nq Hq)). apply H1; assumption.
+Qed.
+
+(* the record of the call is written *)
+Lemma finish_E : forall w p o, EI w -> In p (c_built (w_new w)) ->
+  (if op_raised o then forall g, lookup (w_fs w) p <> Some (NFile g) else isfile (w_fs w) p = true) ->
+  let w' := set_new (cache_with (w_new w) (files_set (c_files (w_new w)) p (Some o)) (c_subs (w_new w))
+                                (c_dirs (w_new w)) (c_built (w_new w))) w in
+  EI w' /\ stable_ex p w w'.
+Proof.
+  intros w p o (Z1 & HZ & XB & XS & X6) Hb Hrec w'. subst w'.
+  assert (Hget : forall q o', cache_get_file (cache_with (w_new w) (files_set (c_files (w_new w)) p (Some o)) (c_subs (w_new w))
+                                (c_dirs (w_new w)) (c_built (w_new w))) q = Some o' ->
+                 (q = p /\ o' = o) \/ (q <> p /\ cache_get_file (w_new w) q = Some o')).
+  { intros q o' Ho. unfold cache_get_file in *. cbn [c_files cache_with] in Ho. rewrite files_get_set in Ho.
+    destruct (path_eqb p q) eqn:E.
+    - apply path_eqb_eq in E. left. split; [symmetry; exact E | congruence].
+    - apply path_eqb_neq in E. right. split; [congruence | exact Ho]. }
+  split.
+  - unfold EInv, XBc, XSc, X6c. cbn [w_new w_bd w_fs w_backups set_new c_built c_dirs cache_with].
+    split; [exact Z1|]. split; [exact HZ|]. split; [|split; [|exact X6]].
+    + intros q o' Ho Hq. destruct (Hget q o' Ho) as [[-> ->]|[Nq Ho']]; [exact Hrec | exact (XB q o' Ho' Hq)].
+    + intros q o' Ho Hq Hc. destruct (Hget q o' Ho) as [[-> ->]|[Nq Ho']]; [contradiction | exact (XS q o' Ho' Hq Hc)].
+  - intros q Nq _. cbn [w_new set_new c_files cache_with]. rewrite files_get_set.
+    destruct (path_eqb p q) eqn:E; [|reflexivity]. apply path_eqb_eq in E. congruence.
+Qed.
+
+Lemma try_to_remove_file_full : forall p w w' r, try_to_remove_file p w = (w', r) -> w_faults w = [] ->
+  r = inl tt /\ w_new w' = w_new w /\ w_backups w' = w_backups w /\ w_bd w' = w_bd w /\
+  (forall g, lookup (w_fs w') p <> Some (NFile g)) /\
+  (forall q, q <> p -> lookup (w_fs w') q = lookup (w_fs w) q).
+Proof.
+  intros p w w' r H Hf. unfold try_to_remove_file in H. unfold bind at 1, get in H.
+  destruct (isfile (w_fs w) p) eqn:Ef.
+  - unfold catch in H. rewrite (effect_nofault' _ _ _ _ Hf) in H.
+    apply isfile_lookup in Ef. destruct Ef as [g Hg].
+    destruct p as [|n d]; [cbn in Hg; discriminate Hg|].
+    unfold remove in H. rewrite Hg in H. inversion H; subst. cbn [w_fs w_new w_backups w_bd set_log set_fs set_effects].
+    repeat (split; [reflexivity|]). split.
+    + intros g'. rewrite lookup_upd_eq by discriminate. discriminate.
+    + intros q Hq. apply lookup_upd_neq. exact Hq.
+  - inversion H; subst. repeat (split; [reflexivity|]). split; [|reflexivity].
+    intros g Y. unfold isfile in Ef. rewrite Y in Ef. discriminate Ef.
+Qed.
+
+(* the target of the call, in progress, is removed *)
+Lemma remove_target_E : forall p w w' r, try_to_remove_file p w = (w', r) -> w_faults w = [] ->
+  EI w -> pending (w_new w) p -> In p (c_built (w_new w)) ->
+  r = inl tt /\ EI w' /\ stable w w' /\ w_new w' = w_new w /\ (forall g, lookup (w_fs w') p <> Some (NFile g)).
+Proof.
+  intros p w w' r H Hf (Z1 & HZ & XB & XS & X6) Hp Hb.
+  destruct (try_to_remove_file_full _ _ _ _ H Hf) as (R0 & F1 & F2 & F3 & G1 & G2).
+  split; [exact R0|]. split; [|split; [apply stable_same; rewrite F1; reflexivity | split; [exact F1 | exact G1]]].
+  unfold EInv, XBc, XSc, X6c. rewrite F1, F2, F3.
+  split; [exact Z1|]. split; [exact HZ|]. split; [|split; [|exact X6]].
+  - intros q o Ho Hq. assert (Nq : q <> p) by (intro E; subst q; rewrite (get_none_of_pending _ _ Hp) in Ho; discriminate Ho).
+    pose proof (XB q o Ho Hq) as Y. unfold isfile in *. rewrite (G2 q Nq). exact Y.
+  - intros q o Ho Hq Hc g. assert (Nq : q <> p) by (intro E; subst q; contradiction).
+    rewrite (G2 q Nq). exact (XS q o Ho Hq Hc g).
+Qed.
+
+Hint Resolve try_to_remove_file_F m_bd_error_F new_finish_building_file_F : pres.
+
+(* _handle_error_building_file *)
+Lemma fail_seq_G : forall p o wf w' r',
+  bind (try_to_remove_file p) (fun _ => bind (m_bd_error p) (fun _ => new_finish_building_file p o)) wf = (w', r') ->
+  op_raised o = true -> FI wf -> EI wf -> In p (c_built (w_new wf)) -> pending (w_new wf) p ->
+  FI w' /\ built_le wf w' /\ EI w' /\ stable_ex p wf w'.
+Proof.
+  intros p o wf w' r' H Hra Fw Ew Hb Hp.
+  assert (HF : pres (FP (Some p)) (bind (try_to_remove_file p) (fun _ => bind (m_bd_error p) (fun _ => new_finish_building_file p o))))
+    by pres_auto.
+  assert (Tw : tcond (Some p) wf) by (intros q Y; inversion Y; subst; exact Hb).
+  destruct (HF _ _ _ H Fw Tw) as [Fw' L]. split; [exact Fw'|]. split; [exact L|].
+  pose proof (proj1 Fw) as (Hf & _).
+  apply bind_inv in H. destruct H as [(wa & u & E1 & H) | (e & E1 & _)].
+  2:{ destruct (remove_target_E _ _ _ _ E1 Hf Ew Hp Hb) as (Y & _). discriminate Y. }
+  destruct (remove_target_E _ _ _ _ E1 Hf Ew Hp Hb) as (_ & Ewa & Sa & Na & Ga).
+  apply bind_inv in H. destruct H as [(wb & u2 & E2 & H) | (e & E2 & _)].
+  - assert (Kb : EI wb /\ stable wa wb /\ w_new wb = w_new wa /\ w_fs wb = w_fs wa).
+    { unfold m_bd_error in E2. destruct (bd_error (w_bd wa) p) as [b|] eqn:Eb; inversion E2; subst; clear E2.
+      destruct (EInv_bd wa b Ewa) as [Y1 Y2]; [destruct Ewa as (_ & HZ & _); eapply bd_error_Z; eauto|].
+      split; [exact Y1|]. split; [exact Y2|]. split; reflexivity. }
+    destruct Kb as (Ewb & Sb & Nb & Fb).
+    unfold new_finish_building_file, modify in H. inversion H; subst w' r'; clear H.
+    destruct (finish_E wb p o Ewb) as [Ew' Sx].
+    { rewrite Nb, Na. exact Hb. }
+    { rewrite Hra, Fb. exact Ga. }
+    split; [exact Ew'|]. eapply stable_then_ex; [eapply stable_trans; eauto | exact Sx].
+  - unfold m_bd_error in E2. destruct (bd_error (w_bd wa) p) as [b|] eqn:Eb; inversion E2; subst.
+    split; [exact Ewa | apply stable_is_ex; exact Sa].
+Qed.
+
+Lemma bf_tail_none_G : forall p c fname sargs skw fn w1 w' r,
+  (forall sa skw', pres (GP (Some p)) (fn p sa skw')) ->
+  bf_tail p c fname sargs skw fn (w1, inl None) = (w', r) ->
+  FI w1 -> EI w1 -> In p (c_built (w_new w1)) -> pending (w_new w1) p ->
+  FI w' /\ built_le w1 w' /\ EI w' /\ stable_ex p w1 w'.
+Proof.
+  intros p c fname sargs skw fn w1 w' r Hfn H Fw1 Ew1 Hb1 Hp1. unfold bf_tail in H. cbv zeta in H.
+  assert (Tw1 : tcond (Some p) w1) by (intros q Y; inversion Y; subst; exact Hb1).
+  assert (Gw1 : gcond (Some p) w1) by (intros q Y; inversion Y; subst; exact Hp1).
+  destruct (fn p sargs skw (set_log (LInvoke fname (Some p) sargs skw :: w_log w1) w1)) as [w3 [res subs]] eqn:E2.
+  assert (R13 : GR (Some p) w1 w3).
+  { eapply GRel_trans; [apply GRel_set_log | exact (Hfn _ _ _ _ _ E2)]. }
+  destruct (R13 Fw1 Ew1 Tw1 Gw1) as (Fw3 & L3 & Ew3 & S3).
+  assert (Hb3 : In p (c_built (w_new w3))) by (apply L3; exact Hb1).
+  assert (Hp3 : pending (w_new w3) p) by (exact (gcond_stable _ _ _ Gw1 S3 p eq_refl)).
+  (* the failure path, from a world related to w1 *)
+  assert (Fail : forall wf o wr rr, FI wf -> EI wf -> built_le w1 wf -> stable w1 wf ->
+            op_raised o = true ->
+            bind (try_to_remove_file p) (fun _ => bind (m_bd_error p) (fun _ => new_finish_building_file p o)) wf = (wr, rr) ->
+            FI wr /\ built_le w1 wr /\ EI wr /\ stable_ex p w1 wr).
+  { intros wf o wr rr Ff Ef Lf Sf Hra E.
+    destruct (fail_seq_G _ _ _ _ _ E Hra Ff Ef (Lf p Hb1) (gcond_stable _ _ _ Gw1 Sf p eq_refl)) as (A1 & A2 & A3 & A4).
+    split; [exact A1|]. split; [eapply built_le_trans; eauto|]. split; [exact A3 | eapply stable_then_ex; eauto]. }
+  destruct res as [v|e].
+  - destruct (sanitize v) as [sv|].
+    + destruct (noneable_cmp p c w3) as [w4 [cmp|e]] eqn:E4.
+      * pose proof (G_view (Some p) _ _ (noneable_cmp_view p c) _ _ _ E4) as R34. change (GR (Some p) w3 w4) in R34.
+        assert (Tw3 : tcond (Some p) w3) by (intros q Y; inversion Y; subst; exact Hb3).
+        assert (Gw3 : gcond (Some p) w3) by (intros q Y; inversion Y; subst; exact Hp3).
+        destruct (R34 Fw3 Ew3 Tw3 Gw3) as (Fw4 & L4 & Ew4 & S4).
+        assert (L14 : built_le w1 w4) by (eapply built_le_trans; eauto).
+        assert (S14 : stable w1 w4) by (eapply stable_trans; eauto).
+        destruct cmp;
+          try (match type of H with (match ?Z with _ => _ end) = _ => destruct Z as [wr [u|e']] eqn:E5 end;
+               inversion H; subst; eapply Fail; eauto; fail).
+        all: match type of H with (let (_, _) := ?Z in _) = _ => destruct Z as [w5 r5] eqn:E5 end;
+             inversion H; subst w5; clear H;
+             unfold new_finish_building_file, modify in E5; inversion E5; subst w' r5; clear E5;
+             assert (Hfile : isfile (w_fs w4) p = true) by (eapply noneable_cmp_file; [exact E4 | discriminate]);
+             match goal with |- FI (set_new (cache_with _ (files_set _ _ (Some ?o)) _ _ _) _) /\ _ =>
+               destruct (finish_E w4 p o Ew4 (L14 p Hb1) Hfile) as [Ew' Sx];
+               assert (HF : pres (FP (Some p)) (new_finish_building_file p o)) by auto with pres;
+               destruct (HF w4 _ (inl tt) eq_refl Fw4 (fun q Y => match Y in (_ = s) return (match s with Some q' => In q' (c_built (w_new w4)) | None => True end) with eq_refl => L14 p Hb1 end)) as [Fw' L5]
+             end;
+             (split; [exact Fw'|]); (split; [eapply built_le_trans; eauto|]); (split; [exact Ew' | eapply stable_then_ex; eauto]).
+      * pose proof (G_view (Some p) _ _ (noneable_cmp_view p c) _ _ _ E4) as R34. change (GR (Some p) w3 w4) in R34.
+        assert (Tw3 : tcond (Some p) w3) by (intros q Y; inversion Y; subst; exact Hb3).
+        assert (Gw3 : gcond (Some p) w3) by (intros q Y; inversion Y; subst; exact Hp3).
+        destruct (R34 Fw3 Ew3 Tw3 Gw3) as (Fw4 & L4 & Ew4 & S4).
+        match type of H with (match ?Z with _ => _ end) = _ => destruct Z as [wr [u|e']] eqn:E5 end;
+          inversion H; subst; eapply Fail; eauto; first [eapply built_le_trans; eauto | eapply stable_trans; eauto].
+    + match type of H with (match ?Z with _ => _ end) = _ => destruct Z as [wr [u|e']] eqn:E5 end;
+        inversion H; subst; eapply Fail; eauto.
+  - match type of H with (match ?Z with _ => _ end) = _ => destruct Z as [wr [u|e']] eqn:E5 end;
+      inversion H; subst; eapply Fail; eauto.
 Qed.
 
 End RunG.
